@@ -239,17 +239,30 @@ def compileWrite : List GSk → Option (List WStep)
 /-- `[.copy]` is deliberately ill-formed: if the skeleton is refused, `Cfg.WF` is false. -/
 def codeWProg : List WStep := (compileWrite skel_entry_UntypedEntry_write).getD [.copy]
 
-def codeReadLocks : Bool :=
-  match skel_entry_EntryStorage_read with
-  | [.closure [.acq .s_read g], .call .s_get, .retGuard g'] => g == g'
-  | _ => false
+/-! The extraction below looks for the *relevant* tokens only, so that effect-free additions to the
+listed functions (logging, verification yield points) do not change the configuration. -/
 
+def firstLoop (l : List GSk) : Option (List GSk) := l.findSome? fun | .loop b => some b | _ => none
+def firstBranch (l : List GSk) : Option (List (List GSk)) := l.findSome? fun | .branch a => some a | _ => none
+def acqReadIn (l : List GSk) : Option Nat := l.findSome? fun | .acq .s_read g => some g | _ => none
+def noLockOps (l : List GSk) : Bool := l.all fun | .acq _ _ | .rel _ | .retGuard _ => false | _ => true
+def hasMoved (l : List GSk) : Bool := l.any fun | .call .s_guard_moved => true | _ => false
+def hasCall (f : Sym) (l : List GSk) : Bool := l.any fun | .call g => g == f | _ => false
+
+/-- `EntryStorage::read`: `lock.read()` is taken (inside the `Option::map` closure), that very guard
+leaves the function inside the returned struct, nothing is released. -/
+def codeReadLocks : Bool :=
+  match skel_entry_EntryStorage_read.findSome? (fun | .closure b => acqReadIn b | .acq .s_read g => some g | _ => none) with
+  | some g => skel_entry_EntryStorage_read.any (fun | .retGuard g' => g == g' | _ => false) &&
+              skel_entry_EntryStorage_read.all (fun | .rel _ => false | _ => true)
+  | none => false
+
+/-- `map` / `try_map`: the guard of the consumed `AssetReadGuard` is moved into the new one; no lock operation. -/
 def codeMapKeeps : Bool :=
-  (match skel_entry_AssetReadGuard_map with
-   | [.call .s_f, .call .s_guard_moved] => true
-   | _ => false) &&
-  (match skel_entry_AssetReadGuard_try_map with
-   | [.call .s_f, .branch [[.call .s_guard_moved], []]] => true
+  hasMoved skel_entry_AssetReadGuard_map && noLockOps skel_entry_AssetReadGuard_map &&
+  noLockOps skel_entry_AssetReadGuard_try_map &&
+  (match firstBranch skel_entry_AssetReadGuard_try_map with
+   | some (alt :: _) => hasMoved alt && noLockOps alt
    | _ => false)
 
 def tokR : GSk → List RStep
@@ -257,16 +270,20 @@ def tokR : GSk → List RStep
   | .call .s_notify => [.notify]
   | _ => []
 
-/-- The `Ok(CacheMessage::Ptr(..))` arm of the inner loop of `hot_reloading_thread`. -/
+/-- The `Ok(CacheMessage::Ptr(..))` arm (first arm of the `match` in the inner loop of the thread's
+main loop). `[notify, update]` is deliberately ill-formed: if the shape is not found, `Cfg.WF` is false. -/
 def codeArm : List RStep :=
-  match skel_hot_reloading_mod_hot_reloading_thread with
-  | [_, _, .loop [.call .s_ready, .loop [.call .s_try_recv, .branch (arm :: _)], _]] => arm.flatMap tokR
+  match ((firstLoop skel_hot_reloading_mod_hot_reloading_thread).bind firstLoop).bind firstBranch with
+  | some (arm :: _) => arm.flatMap tokR
   | _ => [.notify, .update]
 
+/-- `HotReloader::reload`: after `send`, the success branch waits for the answer. -/
 def codeCallerWaits : Bool :=
-  match skel_hot_reloading_mod_HotReloader_reload with
-  | [.call .s_get_unique_token, .call .s_Ptr, .call .s_send, .branch [[.call .s_wait_for_answer], []]] => true
-  | _ => false
+  match skel_hot_reloading_mod_HotReloader_reload.dropWhile (fun | .call .s_send => false | _ => true) with
+  | _ :: rest => (match firstBranch rest with
+    | some (alt :: _) => hasCall .s_wait_for_answer alt
+    | _ => false)
+  | [] => false
 
 /-- The configuration the current source yields, for values of `k` words. -/
 def codeCfg (k : Nat) : Cfg :=
